@@ -102,6 +102,7 @@ type FnCtx struct {
 	addrFacts map[string]bool
 	lastLoadKey string
 	faddrN int
+	lastLockHeap *Heap // heap right after the most recent lock acquisition (after modelled interference)
 	knownOld map[string]bool // reference terms known to exist at entry (non-negative)
 	dirtyAll bool            // some havoc may have put this call's allocations into the heap
 	dirtyKey map[string]bool // a fresh reference was stored under this key
@@ -397,10 +398,16 @@ func (f *FnCtx) translate() {
 		f.localAllocs = map[string]bool{}
 		f.ifaceUsed = map[string]*types.Interface{}
 		f.callOrd = map[string]int{}
+		if f.spec != nil {
+			for _, ba := range f.spec.Before {
+				ba.C.used = false
+			}
+		}
 		f.convMemo = nil
 		f.indexTerms = nil
 		f.addrFacts = nil
 		f.faddrN = 0
+		f.lastLockHeap = nil
 		f.dirtyAll = false
 		f.dirtyKey = map[string]bool{}
 		f.knownOld = map[string]bool{}
@@ -409,6 +416,13 @@ func (f *FnCtx) translate() {
 		f.i2fArgs, f.f2iArgs = nil, nil
 		f.notes = nil
 		f.runTop()
+	}
+	if f.spec != nil {
+		for _, ba := range f.spec.Before {
+			if f.e.active(ba.C.Tags) && !ba.C.used {
+				f.fail("%s: before call %s#%d: no such call site in %s (stale contract)", ba.C.Line, ba.Callee, ba.Ordinal, fnShortName(f.fn))
+			}
+		}
 	}
 	f.finishGlobals()
 }
@@ -1717,7 +1731,12 @@ func (f *FnCtx) mapKeys(mt *types.Map) (valKey, domKey string, ok bool) {
 }
 
 func (f *FnCtx) slFn(name string) string {
-	f.c.declFun(name, []string{sortInt}, sortInt)
+	if _, ok := f.c.syms[name]; !ok {
+		f.c.declFun(name, []string{sortInt}, sortInt)
+		if name == "sl_len" {
+			f.global = append(f.global, "(= (sl_len 0) 0)")
+		}
+	}
 	return name
 }
 
@@ -2003,6 +2022,9 @@ func (fr *frame) loopTypeInvariants(h *ssa.BasicBlock, st *bstate, from *ssa.Bas
 					f.assume(st, v, "type invariant of "+ts.Name+" at loop head (own writes only): "+inv.Src)
 				}
 				f.hs.ignoreCallHavoc = false
+				continue
+			}
+			if hh := fr.headerHeap[h]; hh != nil && !fr.invTouched(ts, inv, fr.vals[p], hh, st.heap) {
 				continue
 			}
 			f.hs.ignoreCallHavoc = true
